@@ -17,13 +17,25 @@ import time
 def fuzz_main(args):
     from vlib import runner
     import atheris
-    # instrument sigpy BEFORE it is imported anywhere
-    include = ["sigpy.linop", "sigpy.util", "sigpy.conv", "sigpy.block"]
-    with atheris.instrument_imports(include=include, enable_loader_override=False):
-        import sigpy  # noqa: F401
-        import sigpy.linop  # noqa: F401
-        import sigpy.conv  # noqa: F401
-        import sigpy.block  # noqa: F401
+    # numba cannot compile instrumented bytecode, so modules are imported normally and only their plain-Python
+    # functions and methods (shape/index arithmetic, not the jitted kernels) are instrumented afterwards.
+    import inspect
+    import importlib
+    import sigpy  # noqa: F401
+
+    def instrument_module(m):
+        n = 0
+        for name, obj in list(vars(m).items()):
+            if inspect.isfunction(obj) and obj.__module__ == m.__name__:
+                setattr(m, name, atheris.instrument_func(obj))
+                n += 1
+            elif inspect.isclass(obj) and obj.__module__ == m.__name__:
+                for mname, meth in list(vars(obj).items()):
+                    if inspect.isfunction(meth):
+                        setattr(obj, mname, atheris.instrument_func(meth))
+                        n += 1
+        return n
+    ninst = sum(instrument_module(importlib.import_module(nm)) for nm in ("sigpy.util", "sigpy.linop", "sigpy.conv", "sigpy.block"))
     mod = runner.load_module(args.prop)
     part = [p for p in mod.PARTS if p.name == args.fuzz][0]
     known = runner.load_known(args.prop)
@@ -39,7 +51,7 @@ def fuzz_main(args):
             fh.write(runner.canon({"worker": args.worker, "prelude": prelude, "reports": [{
                 "part": part.name + "(atheris)", "evaluations": col.evaluations, "sigs": sorted(col.nontrivial_sigs),
                 "labels": col.labels, "samples": col.samples, "found": state["found"], "known_hits": col.known_hits,
-                "errors": [], "wall_s": round(time.time() - state["t0"], 2)}]}))
+                "errors": [], "instrumented_functions": ninst, "wall_s": round(time.time() - state["t0"], 2)}]}))
 
     def body(case):
         case = dict(case)
